@@ -619,6 +619,30 @@ class Interp:
                 except _Continue:
                     pass
             raise Unsupported("loop bound exceeded at line %s" % s.get("line"))
+        if k == "CXXForRangeStmt" and getattr(self, "concrete_loops", False):
+            rng = None
+            for s0 in ks[:-2]:
+                if isinstance(s0, dict) and s0.get("kind") == "DeclStmt":
+                    for d in kids(s0):
+                        if d.get("kind") == "VarDecl" and d.get("name", "").startswith("__range"):
+                            init = [c for c in kids(d) if isinstance(c, dict) and c.get("kind")]
+                            rng = self.ev(init[-1]) if init else None
+            var = None
+            if isinstance(ks[-2], dict) and ks[-2].get("kind") == "DeclStmt":
+                for d in kids(ks[-2]):
+                    if d.get("kind") == "VarDecl":
+                        var = d.get("name")
+            if not isinstance(rng, (list, tuple)) or var is None:
+                raise Unsupported("range-for over something that is not a concrete sequence at line %s" % s.get("line"))
+            for item in rng:
+                self.env[var] = item
+                try:
+                    self.exec(ks[-1])
+                except _Break:
+                    return
+                except _Continue:
+                    pass
+            return
         if k == "ForStmt" and getattr(self, "concrete_loops", False) and len(s.get("inner", [])) == 5:
             init, condvar, cond, inc, body = s["inner"]
             if condvar and condvar.get("kind"):
